@@ -53,6 +53,8 @@ class World:
                         ev.append(("op2", i, j))
         for i in range(len(self.ten)):
             ev += [("toggle", i, True), ("toggle", i, False), ("retain", i), ("bw", i)]
+            if self.m[i]["rg"]:
+                ev.append(("bwbad", i))      # a backward call that fails (upstream gradient of the wrong shape)
         return ev
 
     def _new_model(self, rg, nonleaf, fl, parents=(), origin="ctor"):
@@ -182,6 +184,21 @@ class World:
                 v("backward-raised", f"{e}: {r!r}")
             else:
                 self._model_backward(i)
+        elif k == "bwbad":
+            i = e[1]; t = self.ten[i]
+            g = sg.Tensor(np.ones(tuple(t.shape) + (2,), dtype=np.float64))
+            raised, r = attempt(lambda: t.backward(g))
+            if not raised:
+                v("backward-accepted-misshaped-gradient", f"{e}: backward(g) with g of shape {g.shape} for a tensor of shape {t.shape}")
+            # a refused call leaves everything as it was: modes are compared below; which gradients a failing call may already have
+            # written is not specified, so the model stops predicting them for the tensors it could have reached
+            reach, todo = [], [i]
+            while todo:
+                n = todo.pop()
+                if n in reach: continue
+                reach.append(n)
+                if self.m[n]["nonleaf"]: todo += list(self.m[n]["parents"])
+            for n in reach: self.m[n]["gradknown"] = False
         else:
             raise harness.HarnessError(f"unknown event {e}")
         if check:
@@ -394,7 +411,7 @@ def run(tier, seed):
            "level_sizes": res.level_sizes, "pruned_violating_transitions": res.pruned,
            "rule": f"all histories up to depth {depth} over <= {MAX_CTX} context objects (no_grad/retain_grads, "
                    f"constructed early/entered late/re-used, exit normal or by exception) and <= {MAX_TEN} tensors "
-                   "(leaf f64/f32/i64, tanh, mul, unbind, detach, toggle, retain_grad, backward); states merged on "
+                   "(leaf f64/f32/i64, tanh, mul, unbind, detach, toggle, retain_grad, backward, backward refused for a mis-shaped gradient); states merged on "
                    "model state + observable library state; each transition is a full replay on fresh objects "
                    "compared with the stack-machine model after the last event"}
     with harness.quiet():
